@@ -284,8 +284,12 @@ META = {
         'note': _NOTE, 'technique': _TECH + ' (blocked-time accounting per '
                 'loop step, bounded-liveness oracle)'},
     'C09': {
-        'level': 'exploration',
-        'text': 'seeded random daemon lives (real Arbiter/Watcher/Controller '
+        'level': 'fault_enumeration',
+        'text': 'systematic sweep (a worker death with every exit status / '
+                'terminating signal in turn before every kernel call of a '
+                'periodic check and of incr / decr / set / reload base '
+                'scenarios) plus '
+                'seeded random daemon lives (real Arbiter/Watcher/Controller '
                 'on the simulator) with worker deaths of every exit status / '
                 'terminating signal placed at kernel-call boundaries, loop '
                 'steps and virtual times relative to periodic checks and '
